@@ -648,7 +648,7 @@ func (w *world) opWatchNext(h int) {
 		w.tag("next:would-block")
 		return
 	}
-	ctx, cancel := context.WithTimeout(bg, 5*time.Second)
+	ctx, cancel := context.WithTimeout(bg, nextTimeout)
 	ev, err := rec.w.Next(ctx)
 	cancel()
 	switch {
@@ -664,8 +664,14 @@ func (w *world) opWatchNext(h int) {
 		rec.dead = true
 		return
 	case errors.Is(err, context.DeadlineExceeded):
+		// the shim said something is deliverable, Next did not deliver it: the implementation filters in a way
+		// the shim does not know. The line says "none" (the model will disagree if it should); do not pay the
+		// long timeout over and over.
 		w.line(op, "none")
 		w.tag("next:timeout")
+		if nextTimeouts++; nextTimeouts >= 2 {
+			nextTimeout = 100 * time.Millisecond
+		}
 		return
 	default:
 		w.line(op, "err")
@@ -822,6 +828,49 @@ func (w *world) opPump() {
 		w.line("pump", "empty")
 		w.tag("pump:empty")
 	}
+}
+
+var (
+	nextTimeout  = 5 * time.Second
+	nextTimeouts = 0
+)
+
+// probeGuardLive finds out which variant of Watch's index guard the implementation has: the one that is
+// there today never fires (an event older than the snapshot is re-delivered: known finding
+// watch:stale-event-after-snapshot), a repaired one drops that event. The model has both variants; a
+// known finding that stops reproducing is not an alarm.
+func probeGuardLive() bool {
+	st, err := inmem.NewStore()
+	if err != nil {
+		panic(err)
+	}
+	id := &pbresource.ID{Type: &pbresource.Type{Group: "demo", GroupVersion: "v1", Kind: "artist"},
+		Tenancy: &pbresource.Tenancy{Partition: "default", Namespace: "default"}, Name: "probe", Uid: "u"}
+	if err := st.WriteCAS(&pbresource.Resource{Id: id, Version: "1"}, ""); err != nil {
+		panic(err)
+	}
+	if err := st.WriteCAS(&pbresource.Resource{Id: id, Version: "2"}, "1"); err != nil {
+		panic(err)
+	}
+	wt, err := st.WatchList(storage.UnversionedTypeFrom(id.Type), id.Tenancy, "")
+	if err != nil {
+		panic(err)
+	}
+	defer wt.Close()
+	for st.VerifC18Pub().VerifC18DrainOne() {
+	}
+	for i := 0; i < 3; i++ {
+		ctx, cancel := context.WithTimeout(bg, 700*time.Millisecond)
+		ev, err := wt.Next(ctx)
+		cancel()
+		if err != nil {
+			return true // nothing after the snapshot: the old event was dropped
+		}
+		if i == 2 {
+			return !(ev.GetUpsert() != nil && ev.GetUpsert().Resource.Version == "1")
+		}
+	}
+	return true
 }
 
 // ---------------------------------------------------------------- snapshot / restore
@@ -1243,6 +1292,10 @@ func witnessRestore(run *hx.Run) {
 func main() {
 	run := hx.Start()
 	run.Rule = "model line == implementation line for every operation; monitors: CAS at most once per version, uid stable, stale lifetimes untouched, list = committed set, watch = listing + EndOfSnapshot + every later commit once in order, read after event not older; concurrent histories linearizable"
+	live := probeGuardLive()
+	run.Line("cfg guard-live "+hx.EncBool(live), "ok")
+	run.Tag("probe:index-guard-live=" + hx.EncBool(live))
+	run.Extra["index_guard_live"] = live
 	witnessLag(run)
 	witnessRestore(run)
 	nCases := run.Scale(400, 4000)
@@ -1252,7 +1305,12 @@ func main() {
 	for i := 0; i < nCases; i++ {
 		controlledCase(run, run.RNG.Fork(uint64(i)), 60)
 	}
-	concurrentPart(run)
-	servicePart(run)
+	if os.Getenv("C18_ONLY_STRESS") == "" { // development aid
+		concurrentPart(run)
+	}
+	subscribeStress(run)
+	if os.Getenv("C18_ONLY_STRESS") == "" {
+		servicePart(run)
+	}
 	run.Finish()
 }
